@@ -30,9 +30,9 @@ class BuildLock:
 
 # flavours that are a base flavour plus SKINNY_VERIF hook switches (so that a replay file can name them)
 FLAVOUR_SPECS = {
-    "tsanhook_w32": ("tsanhook", ("SKINNY_VERIF", "SKINNY_VERIF_64BIT=0")),
-    "tsanhook_w32_u0_nosimd": ("tsanhook", ("SKINNY_VERIF", "SKINNY_VERIF_64BIT=0", "SKINNY_VERIF_UNALIGNED=0", "SKINNY_VERIF_VEC128_MATH=0", "SKINNY_VERIF_VEC256_MATH=0")),
-    "tsanhook_neutral": ("tsanhook", ("SKINNY_VERIF", "SKINNY_VERIF_LITTLE_ENDIAN=0", "SKINNY_VERIF_VEC128_MATH=0", "SKINNY_VERIF_VEC256_MATH=0")),
+    "cthook_w32": ("cthook", ("SKINNY_VERIF", "SKINNY_VERIF_64BIT=0")),
+    "cthook_w32_u0_nosimd": ("cthook", ("SKINNY_VERIF", "SKINNY_VERIF_64BIT=0", "SKINNY_VERIF_UNALIGNED=0", "SKINNY_VERIF_VEC128_MATH=0", "SKINNY_VERIF_VEC256_MATH=0")),
+    "cthook_neutral": ("cthook", ("SKINNY_VERIF", "SKINNY_VERIF_LITTLE_ENDIAN=0", "SKINNY_VERIF_VEC128_MATH=0", "SKINNY_VERIF_VEC256_MATH=0")),
 }
 
 
